@@ -205,6 +205,9 @@ CHECKS = {
             model("ChmuxPeer_MC.cfg", spec="ChmuxPeerMCc.tla", min_states=1000),
             model("ChmuxPeer_Cov.cfg", spec="ChmuxPeerMCc.tla", expect_violation="NeverFullBuffer"),
             dict(kind="custom", fn=legs.wire_vectors, name="wire_malformed", only_t="bytes"),
+            # stream transport: a frame whose length prefix exceeds the victim's max_frame_length, payload withheld
+            dict(kind="trace", name="stream_hostile", workload="stream_hostile", n=(100, 1500), opts={}, tspec="StreamTrace.tla", tcfg="StreamTrace.cfg",
+                 require={r'"ev":"sh_conn_end"': 100}, nontrivial=[r'"ev":"sh_after"']),
             dict(PT, kind="trace", name="peer_hostile", workload="peer", n=(400, 6000), opts={"hostile": 1},
                  require={r'"res":"protocol"': 100, r'"res":"reset"': 3, r'"running":true': 20}, nontrivial=[r'"ev":"run_end"', r'"b":\[5,']),
             dict(PT, kind="custom", fn=legs.gen_replay, name="peer_replay", gen_spec="ChmuxPeerGen.tla", gen_cfg="ChmuxPeerGen.cfg",
